@@ -147,11 +147,18 @@ def finish(prop, tier, seed, obligations, meta, t0, confirm=None):
     lines = []
     violations = 0
     announced = []
+    n_confirm = 0
+    by_function = {}
     for o in refuted:
         extra = None
-        if confirm is not None:
+        if confirm is not None and n_confirm >= 4 and o.function in by_function:
+            extra = dict(by_function[o.function], note="replay shared with another failed obligation of the same function")
+        elif confirm is not None and n_confirm < 4:
+            n_confirm += 1
             try:
                 extra = confirm(o)
+                if extra and extra.get("confirmed_on_real_code"):
+                    by_function.setdefault(o.function, extra)
             except Exception as ex:  # replay search must never mask the verdict
                 extra = {"replay_error": repr(ex)}
         k = match_known(prop, o, known)
